@@ -31,7 +31,7 @@ CHECKS = {
 # family configuration: exhaustive config, generator config, scenario counts per tier
 FAMILY = {
     "C01": dict(mc="MC_Ledger", gen="MC_GenLedger", quick=240, thorough=2500, drivers=["secret", "configmap", "memory"],
-                sweep=(3, 40), extra_gen=["MC_GenLedgerLong.cfg"], gen_depth=1200),
+                sweep=(8, 60), sweep_uninstall=True, extra_gen=["MC_GenLedgerLong.cfg"], gen_depth=1200),
     "C02": dict(mc="MC_Cluster", gen="MC_GenCluster", quick=260, thorough=2500, drivers=["secret", "memory", "configmap"]),
     "C03": dict(mc="MC_Fault", gen="MC_GenFault", quick=200, thorough=2000, drivers=["secret", "configmap", "memory"],
                 sweep=(6, 60)),
@@ -402,7 +402,9 @@ def run(pid, tier, seed, replay=None):
         for sid, evs in traces:
             sc = bysid0[sid]
             ops = [st for st in sc["steps"] if "op" in st]
-            if not ops or any(st.get("fault") or st.get("crash") for st in ops) or ops[-1]["op"] == "uninstall":
+            if not ops or any(st.get("fault") or st.get("crash") for st in ops):
+                continue
+            if ops[-1]["op"] == "uninstall" and not fam.get("sweep_uninstall"):
                 continue
             if ops[-1]["flags"].get("dryRun") or ops[-1]["flags"].get("dryRunOption"):
                 continue
@@ -412,11 +414,19 @@ def run(pid, tier, seed, replay=None):
             # one base per distinct (operation, flags, chart, history length): spread the sweep over flag combinations
             sig = (ops[-1]["op"], ops[-1].get("chart", ""), json.dumps({k: v for k, v in ops[-1]["flags"].items() if v}, sort_keys=True))
             cands.setdefault(sig, []).append((ends[-1]["calls"], sid))
-        order = sorted(cands, key=lambda g: (-len(json.loads(g[2])), g))     # most flags first
         rnd = random.Random(seed)
-        rnd.shuffle(order)
-        order.sort(key=lambda g: -len(json.loads(g[2])))
-        for sig in order[:nb]:
+        bykind = {}
+        for g in sorted(cands):
+            bykind.setdefault(g[0], []).append(g)
+        for k in bykind:
+            rnd.shuffle(bykind[k])
+            bykind[k].sort(key=lambda g: -len(json.loads(g[2])))      # most flags first within an operation kind
+        order = []
+        while len(order) < nb and any(bykind.values()):
+            for k in sorted(bykind):                                   # round-robin over operation kinds
+                if bykind[k] and len(order) < nb:
+                    order.append(bykind[k].pop(0))
+        for sig in order:
             calls, sid = max(cands[sig])
             sc = bysid0[sid]
             for k in range(1, calls + 1):
